@@ -117,11 +117,11 @@ def _verify(E, reg, qualname, rep, ghosts):
             st.assume(rs(E.cls_of(v.t), z3.IntVal(E.cls_id(ty.cls))))
         if isinstance(ty, TList) and isinstance(ty.elem, TRef):
             i = z3.Int(E.fresh_name("i"))
-            st.assume(z3.ForAll([i], E.born(v.t[i]) <= 0, patterns=[v.t[i]]))
+            st.assume(z3.ForAll([i], E.born(Q.At(v.t, i)) <= 0, patterns=[Q.At(v.t, i)]))
         if isinstance(ty, TOpt) and isinstance(ty.inner, TList) and isinstance(ty.inner.elem, TRef):
             i = z3.Int(E.fresh_name("i"))
             inner = E.U.dt(ty).get(v.t)
-            st.assume(z3.ForAll([i], E.born(inner[i]) <= 0, patterns=[inner[i]]))
+            st.assume(z3.ForAll([i], E.born(Q.At(inner, i)) <= 0, patterns=[Q.At(inner, i)]))
         env[n] = SVal(v.t, v.ty, LV("var", n) if _container(ty) else None)
     # defaults are not needed: every parameter is symbolic
     env["__globals__"] = PyObj(fn.__globals__)
@@ -137,7 +137,7 @@ def _verify(E, reg, qualname, rep, ghosts):
         st.assume(eval_spec(E, r, st, entry_frame))
     for r in c.assume_entry:
         E.assumptions.add(f"entry assumption of {qualname}: {r}")
-    if solve.check_sat(E.axioms_now() + st.pc, 3000) == "unsat":
+    if E.satisfiable(st.pc) == "unsat":
         o = Obligation(f"{qualname}/vacuity[requires-satisfiable]", qualname, "vacuity", [], z3.BoolVal(False))
         o.status, o.reason = "refuted", "the precondition (with the assumed axioms) is contradictory"
         E.obls.append(o)
@@ -194,6 +194,7 @@ def _verify(E, reg, qualname, rep, ghosts):
     # covers: each must be reachable at some normal exit
     for i, cv in enumerate(c.covers):
         found = False
+        unknown = False
         for s in outs:
             if s.status is None or s.status[0] == "return":
                 res = s.status[1] if s.status else SVal(None, NONE)
@@ -203,13 +204,16 @@ def _verify(E, reg, qualname, rep, ghosts):
                     g = eval_spec(E, cv, s, frame, old=entry)
                 except OutsideSubset:
                     continue
-                if solve.check_sat(E.axioms_now() + s.pc + [g], 3000) == "sat":
+                r = E.satisfiable(s.pc + [g])
+                if r == "sat":
                     found = True
                     break
+                if r == "unknown":
+                    unknown = True
         o = Obligation(f"{qualname}/cover#{i}[{cv[:60]}]", qualname, "cover", [], z3.BoolVal(found))
-        o.status = "discharged" if found else "refuted"
+        o.status = "discharged" if found else ("undecided" if unknown else "refuted")
         o.backend = "z3-5.1(api) sat-check"
-        o.reason = "" if found else "cover not reachable: the contract may be vacuous"
+        o.reason = "" if found else ("cover: model search returned unknown" if unknown else "cover not reachable: the contract may be vacuous")
         E.obls.append(o)
     if normal_exits == 0 and not c.raises_any and not c.exsures:
         o = Obligation(f"{qualname}/vacuity[normal-exit-exists]", qualname, "vacuity", [], z3.BoolVal(False))
